@@ -327,7 +327,9 @@ def check_param_plumbing(chk, F, rule="T3.plumbing"):
         probs = []
         fall = {}
         n_tab = 0
-        for p in mir.walk(b):
+        # module-private plumbing helpers are walked in context; the default_* implementations are the fallbacks the rule looks for
+        plumbing = lambda nm, cb: str(cb.get("vis") or "").startswith("Restricted") and not cb.get("impl_trait") and "::default_" not in nm
+        for p in mir.walk_inline(b, F, pred=plumbing):
             if p.end[0] != "return":
                 continue
             fl = [c for c in p.constraints if c[0] == ("cparam", flag)]
